@@ -385,7 +385,13 @@ class ArrayExpr(SingletonExpr):
 
     def _requires_grid_preservation(self, dependency):
         """Whether this node observes a dependency's block grid."""
-        return False
+        # A node of unknown chunk sizes cannot be put back on the block
+        # structure it advertises by a rechunk, so whatever it derives that
+        # structure from has to stay on its grid.
+        try:
+            return any(c != c for dim in self.chunks for c in dim)
+        except (NotImplementedError, TypeError, ValueError):
+            return False
 
     def _has_grid_sensitive_dependent(self, expr, dependents, _seen=None):
         """Does anything that observes ``expr``'s block grid sit above it?
